@@ -47,6 +47,7 @@ package internal
 //@   property C12 C07
 //@   requires m != nil && m.Msg != nil && len(m.Msg.Question) >= 1 && req != nil && len(req.Question) >= 1 && c != nil
 //@   modifies heap, builtFor
+//@   preserves Request.*, ResultModifiedResponse.*, ResultModifiedRequest.*
 //@   ensures rewritten-from-the-request-at-hand: clone != nil && fresh(clone) && clone.Msg != nil && builtFor[clone.Msg] == req &&
 //@           len(clone.Msg.Question) >= 1 && clone.Msg.Question[0].Name == old(m.Msg.Question[0].Name)
 //@   ensures (forall x int :: x != clone.Msg ==> builtFor[x] == old(builtFor[x]))
